@@ -19,6 +19,8 @@ CONSTANTS MaxN,        \* classes per hierarchy
           Kinds,       \* subset of {"none", "null", "def"}
           Exts,        \* subset of {"true", "false", "list"}
           RelFiles,    \* sequence of component-relative file ids
+          AccAttrs,    \* what the machine may access: subset of {"media", "template", "js", "css"}
+          AccVias,     \* subset of {"cls", "inst"}
           ImplD        \* the deviation set ImplRefines is evaluated for
 
 VARIABLES nacc, ist          \* number of accesses made; state of the implementation-shaped model
@@ -36,6 +38,7 @@ ListsQuick == {L0,
 ListsThorough == ListsQuick \cup
               {[js |-> <<2, 1>>, all |-> <<3>>,    print |-> <<1, 2>>],
                [js |-> <<3, 1>>, all |-> <<2, 3>>, print |-> <<2, 1>>]}
+ListsTiny == {L0, [js |-> <<1, 2>>, all |-> <<2>>, print |-> <<>>]}
 ListsRel == {[js |-> <<1>>, all |-> <<>>, print |-> <<>>],
              [js |-> <<2, 1>>, all |-> <<1>>, print |-> <<>>]}
 ListsNone == {L0}
@@ -56,6 +59,11 @@ ExtsAll == {"true", "false", "list"}
 ExtsTF == {"true", "false"}
 NoRel == <<>>
 Rel1 == <<1>>
+AccAll == {"media"} \cup Pairs
+AccMedia == {"media"}
+AccMediaJs == {"media", "js"}
+ViasBoth == Vias
+ViasCls == {"cls"}
 NoDevs == {}
 AllDevs == Devs
 DevInherit == {"inherit"}
@@ -85,7 +93,8 @@ AddClass == /\ N(kase) < MaxN /\ nacc = 0 /\ Valid(kase)
             /\ UNCHANGED <<memo, ret, nacc, ist>>
 
 MCAccess == /\ nacc < MaxAcc /\ N(kase) >= 1 /\ Valid(kase)
-            /\ Access
+            /\ \E c \in 0..N(kase), via \in AccVias, a \in AccAttrs :
+                  IF a = "media" THEN AccessMedia(c, via) ELSE AccessAttr(c, a, via)
             /\ nacc' = nacc + 1
             /\ ist' = ImplStep(kase, ImplD, ist, ret'.c, ret'.a)
 
@@ -98,14 +107,14 @@ MCSpec == MCInit /\ [][MCNext]_mcVars
 \* counterexamples for the named deviations when ImplD contains them)
 ImplRefines ==
   (ret # NoRet /\ ret.a = "media") =>
-     \A t \in Types : MediaOK(ImplMedia(ist, ret.c)[t], kase, ret.c, t)
+     \A t \in Types : MediaOK(ImplMedia(kase, ist, ret.c)[t], kase, ret.c, t)
 
 \* a deviation changes the set of files only on its named shape
 ImplSets(K, D, c) ==
   LET st == ImplFill(K, D, [memo |-> <<>>, resolved |-> 1..N(K)], c) IN
-  [t \in Types |-> Range(ImplMedia(st, c)[t])]
+  [t \in Types |-> Range(ImplMedia(K, st, c)[t])]
 InheritOnlyOnShape ==
-  \A c \in 1..N(kase) : (Valid(kase) /\ ImplSets(kase, {"inherit"}, c) # MediaVal(kase, c)) => InheritShape(kase, c)
+  \A c \in 1..N(kase) : (nacc = 0 /\ Valid(kase) /\ ImplSets(kase, {"inherit"}, c) # MediaVal(kase, c)) => InheritShape(kase, c)
 
 (* ---- export -------------------------------------------------------------------- *)
 \* one line per hierarchy: the classes, and what MediaInherit expects for the LAST class (the
